@@ -63,3 +63,19 @@ Example C14_register_nonvacuous :
   let s := reg_run true [AReg; AReg; AEnv; ADisp; ADisp; AReg; AReg; ADisp; ADisp; ADisp] in
   g_called s = 1%nat /\ g_keyerr s = false.
 Proof. exact reg_nonvacuous. Qed.
+
+(* ---------- consume, with returned messages in the traffic ---------- *)
+From AV Require Import Proofs.RpcRetP.
+(* the same for ANY traffic before the ConsumeOk that neither is one nor closes the channel -
+   returned messages and their content included *)
+Theorem C14_consume_confirmed_tag_with_returns : forall s c v tag pre tpre f tpost rest,
+  c <> 0%nat -> get_chan (s_chans s) c = Some v -> conn_healthy s -> s_io s = true ->
+  s_sendfail s = false ->
+  c_state v = OPEN -> c_errs v = [] -> c_req v = [] -> c_resp v = [] ->
+  forallb (fun t => forallb (mild c [NConsumeOk]) t) pre = true ->
+  forallb (mild c [NConsumeOk]) tpre = true -> f_name f = NConsumeOk ->
+  exists s' v',
+    do_consume (pre ++ (tpre ++ (c, f) :: tpost) :: rest) s c v tag = (s', v', RTag (f_str f), rest) /\
+    mem_tag (f_str f) (c_tags v') = true /\ mem_tag (f_str f) (c_cbs v') = true.
+Proof. exact consume_confirmed_tag_with_returns. Qed.
+Print Assumptions C14_consume_confirmed_tag_with_returns.
